@@ -1,6 +1,7 @@
 import PPModel.Base.PyStr
 import PPModel.Mod.Parse
 import PPProofs.Props.Gen.LeafSrc
+import PPProofs.Props.C14Src
 /-!
 # The leaf matchers of the parse model ARE the translated source (translator tie for the shared parse model)
 
@@ -178,6 +179,18 @@ theorem src_wordEnd_eq (cs s : List Char) (loc : Nat) :
           simp [Py.inChars, *, ofRet]
   · have g2 : ¬ ((loc : Int) < (s.length : Int)) := by omega
     simp [h1, g2, ofRet]
+
+/-- **LineStart.parseImpl (live source) = model**: the translated method calls the translated `util.col`
+    (`src_col_eq`), the model calls the hand-written `LineCol.col` -/
+theorem src_lineStart_eq (s : List Char) (loc : Nat) :
+    ofRet (Gen.LeafSrc.LineStart_parseImpl s loc)
+      = (if LineCol.col loc s == 1 then Out.ok loc [] else Out.fail .parse loc) := by
+  unfold Gen.LeafSrc.LineStart_parseImpl
+  rw [LineCol.src_col_eq]
+  by_cases h : LineCol.col loc s = 1
+  · simp [h, ofRet]
+  · have h' : ¬ ((LineCol.col loc s : Int) = 1) := by omega
+    simp [h, h', ofRet]
 
 /-! ### non-vacuity: the translated source evaluated on concrete texts -/
 example : Gen.LeafSrc.Literal_parseImpl ['a'] ['a', 'b'] 2 "xab".toList 1 = .ok 3 [['a', 'b']] ∧
